@@ -93,6 +93,35 @@ HARNESS = """
         kani::cover!(is_range(res), "range results reachable");
         concat_post(l, r, res, true);
     }
+    // ---- the copies of this calculus that `impl_locational!` expands to (real macro text, instantiated on pairs of locations)
+    pub struct PairPlain { a: Location, b: Location }
+    pub struct PairLossyBegin { a: Location, b: Location }
+    pub struct PairLossyEnd { a: Location, b: Location }
+    impl_locational!(PairPlain, a, b);
+    impl_locational!(PairLossyBegin, lossy a, b);
+    impl_locational!(PairLossyEnd, a, lossy b);
+    #[kani::proof]
+    fn h_macro_plain() {
+        let (l, r) = (any_loc(), any_loc());
+        let res = PairPlain { a: l, b: r }.loc();
+        kani::cover!(is_range(res), "range results reachable");
+        concat_post(l, r, res, false);
+        assert!(res == Location::concat(&l, &r), "impl_locational!(T, begin, end) is Location::concat of the two fields");
+    }
+    #[kani::proof]
+    fn h_macro_lossy_begin() {
+        let (l, r) = (any_loc(), any_loc());
+        let res = PairLossyBegin { a: l, b: r }.loc();
+        kani::cover!(is_range(res), "range results reachable");
+        if l.is_unknown() { assert!(res == r, "lossy begin: an unknown begin gives the end"); } else { concat_post(l, r, res, false); }
+    }
+    #[kani::proof]
+    fn h_macro_lossy_end() {
+        let (l, r) = (any_loc(), any_loc());
+        let res = PairLossyEnd { a: l, b: r }.loc();
+        kani::cover!(is_range(res), "range results reachable");
+        if r.is_unknown() { assert!(res == l, "lossy end: an unknown end gives the begin"); } else { concat_post(l, r, res, false); }
+    }
     #[kani::proof]
     fn h_stream() {
         let (l, m, r) = (any_loc(), any_loc(), any_loc());
@@ -170,8 +199,13 @@ def build(run):
     unit.raw("impl Locational for Token {\n")
     unit.add(tl)
     unit.raw("}\n")
+    # the macro that gives most AST/HIR nodes their location repeats the match of Location::concat: carried verbatim and instantiated
+    unit.add(Snippet(tsrc.macro_def('impl_locational'), 'macro impl_locational! (three arms)'))
     unit.harness(HARNESS)
-    hs = [("h_concat", "Location::concat", "two ranges -> exact span; wf operands in source order -> wf result; lines only from operands; Unknown iff both Unknown"),
+    hs = [("h_macro_plain", "impl_locational!(T, begin, end)", "== Location::concat(begin.loc(), end.loc()), with concat's contract"),
+          ("h_macro_lossy_begin", "impl_locational!(T, lossy begin, end)", "an unknown begin gives the end; otherwise concat's contract"),
+          ("h_macro_lossy_end", "impl_locational!(T, begin, lossy end)", "an unknown end gives the begin; otherwise concat's contract"),
+          ("h_concat", "Location::concat", "two ranges -> exact span; wf operands in source order -> wf result; lines only from operands; Unknown iff both Unknown"),
           ("h_left_main_concat", "Location::left_main_concat", "as concat; keeps the left operand if the right is Unknown"),
           ("h_stream", "Location::stream", "stream(ls) == concat(first, last); empty -> Unknown"),
           ("h_accessors", "Location accessors / Locational defaults", "accessors return the stored coordinates; trait defaults agree; unknown_or; is_real => 1-origin"),
